@@ -123,6 +123,55 @@ func H_C10_seed_derived() {
 	}
 }
 
+// vfC10TwiceSame runs a non-mutating op twice on ONE alignment, the second time with the generator rewound.
+func vfC10TwiceSame(n, L int, op func(al *align) vfSnap) {
+	a := vfC10Concrete(n, L)
+	before := vfSnapshot(a)
+	verifRandMark()
+	r1 := op(a)
+	verifRandRewind()
+	r2 := op(a)
+	verifReach("ran twice on the same object")
+	verifAssert(vfC10SameSnap(r1, r2), "same seed, same object: same result")
+	verifAssert(vfC10SameSnap(before, vfSnapshot(a)), "the source is unchanged by both runs")
+}
+
+// H_C10_seed_same_object: the operations that build a new alignment give the same one again when they are re-run on the very same source object with the generator re-seeded (no state is carried from one call to the next).
+// bounds: 3x4 alignment of pairwise distinct concrete residues; BuildBootstrap(1), BuildBootstrap(1/2), Sample(2), RandSubAlign(2, both modes), Rarefy(1|2, counts 1,2,1); every outcome of the draws of the first run; every map iteration order in both runs
+// outside: other shapes, sizes and counts; more than two runs
+//verif: maporder=1 maxsteps=3000000
+func H_C10_seed_same_object() {
+	which := nondetRange(0, 4)
+	flag := nondetBool()
+	switch which {
+	case 0:
+		frac := 1.0
+		if flag {
+			frac = 0.5
+		}
+		vfC10TwiceSame(3, 4, func(al *align) vfSnap { return vfSnapshot(al.BuildBootstrap(frac)) })
+	case 1:
+		vfC10TwiceSame(3, 4, func(al *align) vfSnap {
+			s, err := al.Sample(2)
+			verifAssert(err == nil, "sample accepted")
+			return vfSnapshot(s)
+		})
+	case 2:
+		vfC10TwiceSame(3, 4, func(al *align) vfSnap {
+			s, err := al.RandSubAlign(2, flag)
+			verifAssert(err == nil, "sub-alignment accepted")
+			return vfSnapshot(s)
+		})
+	default:
+		nb := which - 2
+		vfC10TwiceSame(3, 2, func(al *align) vfSnap {
+			s, err := al.Rarefy(nb, map[string]int{vfNames[0]: 1, vfNames[1]: 2, vfNames[2]: 1})
+			verifAssert(err == nil, "rarefaction accepted")
+			return vfSnapshot(s)
+		})
+	}
+}
+
 // H_C10_bootstrap_partial_support: in a partial bootstrap (frac<1) every site of the alignment, the last one included, can still be drawn, at every position of the result.
 // bounds: n=2, L=4, concrete distinct columns, frac in {1/4, 1/2, 3/4}; reachability over all outcomes of the draws
 // outside: L>4, other fractions
